@@ -20,6 +20,16 @@ META = {"int": {"pandas_type": "int64", "numpy_type": "int64", "field_name": "k"
         "bool": {"pandas_type": "bool", "numpy_type": "bool", "field_name": "k", "name": "k", "metadata": None}}
 
 
+def _pm(meta):
+    """what the handle derives from the pandas metadata's partition_columns block: the real ParquetFile.partition_meta"""
+    if meta is None:
+        return None
+
+    class _H:
+        pandas_metadata = {"partition_columns": list(meta.values())}
+    return api.ParquetFile.partition_meta.fget(_H())
+
+
 class _DT:
     def __init__(self, name):
         self.name = name.name if isinstance(name, _DT) else name
@@ -305,7 +315,7 @@ def h_hive_str(a: str, b: str) -> bool:
     util.np = _NPu
     try:
         paths, opened, dirs = _written_paths(["k"], [a, b], True)
-        meta = {"k": META["str"]}
+        meta = _pm({"k": META["str"]})
         scheme, cats = api.paths_to_cats(paths, meta)
         if scheme != "hive" or sorted(cats) != ["k"] or sorted(cats["k"]) != sorted([a, b]):
             return False
@@ -351,7 +361,7 @@ def h_hive_int(ia: int, ib: int) -> bool:
     from crosshair import realize
     a, b = INTS[realize(ia)], INTS[realize(ib)]
     paths, opened, dirs = _written_paths(["k"], [a, b], True)
-    meta = {"k": META["int"]}
+    meta = _pm({"k": META["int"]})
     scheme, cats = api.paths_to_cats(paths, meta)
     if scheme != "hive" or sorted(int(x) for x in cats["k"]) != sorted([a, b]) or len(set(paths)) != 2:
         return False
@@ -376,6 +386,7 @@ def h_hive_bool_and_two_columns(x: bool, i_n: int, s: str) -> bool:
         paths, opened, dirs = _written_paths(["p", "q", "r"], [(x, n, s)], True)
         meta = {"p": dict(META["bool"], field_name="p"), "q": dict(META["int"], field_name="q"),
                 "r": dict(META["str"], field_name="r")}
+        meta = _pm(meta)
         scheme, cats = api.paths_to_cats(paths, meta)
         if scheme != "hive" or list(cats) != ["p", "q", "r"]:
             return False
@@ -441,6 +452,7 @@ def h_hive_two_levels(i1: int, i2: int, j1: int, j2: int, with_meta: bool, rev: 
     try:
         paths, opened, dirs = _written_paths(list(PNAMES), [(a1, b1), (a2, b2)], True)
         meta = {PNAMES[0]: dict(META["str"], field_name=PNAMES[0]), PNAMES[1]: dict(META["str"], field_name=PNAMES[1])} if with_meta else None
+        meta = _pm(meta)
         scheme, cats = api.paths_to_cats(paths, meta)
         if scheme != "hive" or list(cats) != list(PNAMES) or len(set(paths)) != 2:
             return False
@@ -535,11 +547,16 @@ def replay_h_drill_str(a, b):
     return _replay_keys([a, b], "drill")
 
 
-def _replay_keys(keys, scheme):
+def _replay_keys(keys, scheme, as_object=None):
     import shutil, tempfile
     import pandas as pd
     import fastparquet
-    df = pd.DataFrame({"k": list(keys), "v": list(range(len(keys)))})
+    if as_object is None and all(isinstance(k, str) for k in keys):
+        # text keys: as the default string dtype, and as an object column (recorded as numpy_type 'object')
+        first = _replay_keys(keys, scheme, as_object=False)
+        return first if first[0] else _replay_keys(keys, scheme, as_object=True)
+    kcol = pd.Series(list(keys), dtype=object) if as_object else list(keys)
+    df = pd.DataFrame({"k": kcol, "v": list(range(len(keys)))})
     d = tempfile.mkdtemp(prefix="c08-")
     try:
         dn = os.path.join(d, "ds")
@@ -560,6 +577,12 @@ def _replay_keys(keys, scheme):
         want = sorted(zip([str(x) for x in df["k"]], [int(x) for x in df["v"]]))
         if got != want:
             return True, "partition keys %r come back as %r" % (keys, got)
+        if scheme == "hive" and all(isinstance(k, str) for k in keys):
+            # the kind is recorded in the pandas metadata: text stays text
+            kinds = sorted({"str" if isinstance(x, str) else type(x).__name__ for x in out[col]})
+            if kinds != ["str"]:
+                return True, "text partition keys %r (%s column) come back as values of kind %r: %r" % (
+                    keys, "object" if as_object else "string", kinds, list(out[col]))
         return False, "keys preserved"
     finally:
         shutil.rmtree(d, ignore_errors=True)
@@ -645,7 +668,7 @@ def h_hive_special_text(i: int) -> bool:
     util.np = _NPu
     try:
         paths, opened, dirs = _written_paths(["k"], [a, b], True)
-        meta = {"k": META["str"]}
+        meta = _pm({"k": META["str"]})
         scheme, cats = api.paths_to_cats(paths, meta)
         if scheme != "hive" or sorted(cats) != ["k"] or sorted(cats["k"]) != sorted([a, b]) or len(set(paths)) != 2:
             return False
